@@ -28,7 +28,7 @@ def units(tier):
     from contracts import fidelity as F
     for s in sorted(F.SCRIPTS_ALL) + F.random_names(tier):
         us.append(Unit(F.Reopened, {'script': s, 'edit': False}))
-    for s in sorted(F.UDF_SCRIPTS):
+    for s in sorted(F.UDF_SCRIPTS) + F.random_udf_names(tier):
         us.append(Unit(F.ReopenedUDF, {'script': s}))
     return us
 
